@@ -19,7 +19,7 @@ def run_multi(ops_text, workdir, variant="plain", backend="file", conf_extra="",
             m = TAG.match(line)
             if not m: continue
             i, op = int(m.group(1)), m.group(2)
-            if op.split()[0] == "nop": op = "nop"
+            if op.split()[0] == "nop" and not op.startswith("nop expect-"): op = "nop"
             if i not in procs:
                 errs[i] = open(os.path.join(workdir, "stderr.%d" % i), "wb")
                 procs[i] = subprocess.Popen([core.harness_path(variant, "p11drv"), "-i"], stdin=subprocess.PIPE, stdout=subprocess.PIPE, stderr=errs[i], env=env, bufsize=0)
